@@ -352,6 +352,7 @@ static void handle(char *line)
 			putstr(it ? jwks_item_pem(it) : NULL);
 		} else if (!strcmp(t[2], "count")) { printf("%zu", jwks_item_count(g_sets[s]));
 		} else if (!strcmp(t[2], "free") && n >= 4) { printf("%d", jwks_item_free(g_sets[s], (size_t)atol(t[3])));
+		} else if (!strcmp(t[2], "drop")) { jwks_free(g_sets[s]); g_sets[s] = NULL; printf("ok");
 		} else if (!strcmp(t[2], "freebad")) { printf("%d", jwks_item_free_bad(g_sets[s]));
 		} else if (!strcmp(t[2], "freeall")) { printf("%d", jwks_item_free_all(g_sets[s]));
 		} else if (!strcmp(t[2], "errany")) { printf("%d", jwks_error_any(g_sets[s]));
